@@ -89,9 +89,25 @@ bool guarded_apply(H &h, uint32_t op, InstResult &res, const std::vector<uint32_
 			throw Violation{pr, "asan:" + h.show_class(op), "AddressSanitizer report during " + h.show(op)};
 		}
 		if(state_check) {
-			h.check_state();
-			raise_pending();
-			if(san_flag()) { san_flag() = 0; throw Violation{"", "asan:check:" + h.show_class(op), "AddressSanitizer report in observers after " + h.show(op)}; }
+			try {
+				h.check_state();
+				raise_pending();
+				if(san_flag()) { san_flag() = 0; throw Violation{"", "asan:check:" + h.show_class(op), "AddressSanitizer report in observers after " + h.show(op)}; }
+			} catch(const Violation &v) {
+				std::string vp = v.prop.empty() ? std::string(h.prop()) : v.prop;
+				if(wanted_prop().empty() || vp == wanted_prop()) throw;
+				// The state oracle that failed belongs to another property (its own check reports it).  The history ends here, but
+				// the end-of-history oracle (lifetimes, leaks, allocation pairing) of the property being checked still gets its turn.
+				record(v);
+				try {
+					san_flag() = 0; pending().reset();
+					h.final_check();
+					raise_pending();
+					if(san_flag()) { san_flag() = 0; throw Violation{"", "asan:final:" + h.show_class(op), "AddressSanitizer report while destroying the owners after " + h.show(op)}; }
+				} catch(const Violation &v2) { record(v2); } catch(const Panic &) {}
+				san_flag() = 0;
+				return false;
+			}
 		}
 		return true;
 	} catch(const Violation &v) {
